@@ -1001,6 +1001,104 @@ func concurrentInvokes(id string, seed uint64) runner.Result {
 	return res
 }
 
+// flushModeSwitched: the flush mode in force is the one set last. A stream created with the
+// ManualFlush option and switched to automatic flushing with SetManualFlush(false) is a stream with
+// automatic flushing: every send that succeeded reaches the peer without any further call. And the
+// other way round a stream switched to manual and back.
+func flushModeSwitched(id string, seed uint64) runner.Result {
+	r := &payload.SplitMix{S: seed}
+	optManual := r.Intn(2) == 0
+	toggles := [][]bool{{false}, {true, false}, {false, true, false}, {true, true, false}}[r.Intn(4)]
+	side := payload.Pick(r, []string{"client", "server"})
+	nmsg := 1 + r.Intn(3)
+	var mu sync.Mutex
+	var srvGot, cliGot []uint32
+	hold := make(chan struct{})
+	sopts := drpcmanager.Options{Stream: drpcstream.Options{ManualFlush: optManual && side == "server"}}
+	copts := drpcmanager.Options{Stream: drpcstream.Options{ManualFlush: optManual && side == "client"}}
+	handler := rig.HandlerFunc(func(stream drpc.Stream, rpc string) error {
+		if side == "server" {
+			var m []byte
+			if err := stream.MsgRecv(&m, payload.Enc{}); err != nil {
+				return nil
+			}
+			for _, t := range toggles {
+				stream.(*drpcstream.Stream).SetManualFlush(t)
+			}
+			for i := 0; i < nmsg; i++ {
+				out := payload.Make(3, 1, 0, uint32(i), 10)
+				if err := stream.MsgSend(&out, payload.Enc{}); err != nil {
+					return nil
+				}
+			}
+			<-hold // no further call of the sender
+			return nil
+		}
+		for {
+			var m []byte
+			if err := stream.MsgRecv(&m, payload.Enc{}); err != nil {
+				return nil
+			}
+			if h, err := payload.Parse(m); err == nil {
+				mu.Lock()
+				srvGot = append(srvGot, h.Seq)
+				mu.Unlock()
+			}
+		}
+	})
+	rg := rig.New(rig.Config{Net: simnet.Opts{Cap: -1}, Client: copts, Server: sopts}, handler)
+	defer rg.Teardown()
+	defer close(hold)
+	st, err := rg.Conn.NewStream(context.Background(), "/x", payload.Enc{})
+	if err != nil {
+		return runner.Inconcl(id, "NewStream: "+err.Error())
+	}
+	desc := fmt.Sprintf("flush-mode-switched %s side: option ManualFlush=%v, SetManualFlush%v, %d small sends and no further call of the sender", side, optManual, toggles, nmsg)
+	var got []uint32
+	if side == "client" {
+		for _, t := range toggles {
+			st.(*drpcstream.Stream).SetManualFlush(t)
+		}
+		for i := 0; i < nmsg; i++ {
+			m := payload.Make(3, 0, 0, uint32(i), 10)
+			if err := st.MsgSend(&m, payload.Enc{}); err != nil {
+				return runner.Violation(id, "delivery:flush-mode-switched:send-failed", desc+": "+err.Error())
+			}
+		}
+		census.Quiesce(rig.Watchdog)
+		mu.Lock()
+		got = append(got, srvGot...)
+		mu.Unlock()
+	} else {
+		first := payload.Make(3, 0, 0, 0, 5)
+		st.MsgSend(&first, payload.Enc{})
+		recv := rig.Go("recv", func() (interface{}, error) {
+			for {
+				var m []byte
+				if err := st.MsgRecv(&m, payload.Enc{}); err != nil {
+					return nil, err
+				}
+				if h, err := payload.Parse(m); err == nil {
+					mu.Lock()
+					cliGot = append(cliGot, h.Seq)
+					mu.Unlock()
+				}
+			}
+		})
+		_ = recv
+		census.Quiesce(rig.Watchdog)
+		mu.Lock()
+		got = append(got, cliGot...)
+		mu.Unlock()
+	}
+	if len(got) != nmsg {
+		return runner.Violation(id, "delivery:flush-mode-switched:sends-succeeded-but-did-not-reach-the-peer", fmt.Sprintf("%s\nat quiescence the peer has obtained %v of %d messages whose sends returned nil with automatic flushing in force", desc, got, nmsg))
+	}
+	res := runner.Hold(id, desc, true)
+	res.Events = int64(nmsg + len(toggles))
+	return res
+}
+
 func describeScript(s *prog.Script) string {
 	return "client=[" + actsString(s.Client) + "] handler=[" + actsString(s.Handler) + "]"
 }
@@ -1017,6 +1115,11 @@ func gen(tier string, seed uint64) []runner.Scenario {
 			id := fmt.Sprintf("full-duplex/manual=%v/%d", manual, i)
 			out = append(out, runner.Scenario{ID: id, Run: func() runner.Result { return fullDuplex(id, manual, payload.Hash(seed, 0xC01D, uint64(i))) }})
 		}
+	}
+	for i := 0; i < n/3; i++ {
+		i := i
+		id := fmt.Sprintf("flush-mode-switched/%d", i)
+		out = append(out, runner.Scenario{ID: id, Run: func() runner.Result { return flushModeSwitched(id, payload.Hash(seed, 0xC01B, uint64(i))) }})
 	}
 	for i := 0; i < n/2; i++ {
 		i := i
